@@ -1,4 +1,4 @@
-import DdsProofs.SigSound
+import DdsProofs.Shape
 /-!
 # A signature determines the parameter values (`env_sound`)
 
@@ -111,29 +111,32 @@ def Vals.named (v : Vals) : List (String × Option Sg) := v.map (fun x => (x.1, 
 def Vals.env (v : Vals) : Env := v.map (fun x => (x.1, RVal.py x.2.1))
 def Vals.hashes (v : Vals) : List (String × Sg) := v.map (fun x => (x.1, x.2.2))
 
-inductive Chain (U : Universe) (m : Nat) : World → Fn → ArgCtx → Env → Prop
+inductive Chain (U : Universe) (m : Nat) (Ω : Blobs) : World → Fn → ArgCtx → Env → Prop
   /-- every parameter value is known to the analysis (entry call; literals and defaults) -/
   | const (W : World) (fn : Fn) (inner : Option Sg) (vals : Vals) :
       vals.map (fun x => x.1) = fn.params.map Param.name →
       (∀ x ∈ vals, ddsHash m x.2.1 = .ok x.2.2 ∧ U.avals x.2.1) →
-      Chain U m W fn ⟨vals.named, inner⟩ vals.env
+      Chain U m Ω W fn ⟨vals.named, inner⟩ vals.env
   /-- some argument is computed at run time: the analysis uses the context signature of the call site -/
   | site (W : World) (caller : Fn) (cctx : ArgCtx) (cenv : Env) (fuel : Nat) (stack : List String) (refs : Refs)
       (pre : List Item) (it : Item) (post : List Item) (st : VisitSt) (results : List RVal) (p : PSt)
       (f : String) (args : List AstArg) (kwargs : List (String × AstArg)) (rtA : List (Option RtExpr))
       (rtK : List (String × Option RtExpr)) (g : Fn) (k : Sg) (named : List (String × Option Sg)) (fis : FIS)
       (rf : Refs) (env' : Env) (ev : List (String × Sg)) (io : Option Sg) :
-      Chain U m W caller cctx cenv → U.world W → U.fns caller →
+      Chain U m Ω W caller cctx cenv → U.world W → U.fns caller →
       caller.items = pre ++ it :: post →
       hashVars m caller.vars = .ok ev →
       buildReturnSig none cctx [] [] caller.exts ev = .ok io →
       visitItems m W (analyse m W fuel) caller (io.getD (hJoin [])) stack { refs := refs } pre = .ok st →
       (plainItems W (plainFn W fuel) cenv p [] pre).1 = .ok results →
+      -- the plain state the body was run from holds, at every path loaded so far, the blob of the signature it resolved to
+      FIS.loadsOKL Ω p.kept st.inters →
+      (∀ path ∈ st.loads, ∃ s v, aget st.refs path = some s ∧ sgGet Ω s = some v ∧ aget p.kept path = some v) →
       it.callee = some (f, args, kwargs, rtA, rtK) →
       CallStep m W (analyse m W fuel) caller (io.getD (hJoin [])) stack st f args kwargs it.line g (some k) named fis rf →
       allSome named = none →
       bindRun g.params (zipArgs results cenv args rtA) (zipKw results cenv kwargs rtK) 0 = some env' →
-      Chain U m W g ⟨named, some k⟩ env'
+      Chain U m Ω W g ⟨named, some k⟩ env'
 
 theorem Vals.named_eq (v : Vals) : v.named = v.hashes.map (fun p => (p.1, some p.2)) := by
   simp [Vals.named, Vals.hashes, map_map, Function.comp_def]
@@ -199,29 +202,6 @@ theorem siteCtx_inv {m : Nat} {fn : Fn} {isig : Sg} {inters : List FIS} {line : 
   simp only [pure, Except.pure, Except.ok.injEq] at h
   exact ⟨bh, hb, h.symm⟩
 
-theorem visitItem_loads {m : Nat} {W : World} {rec : Analyse} {fn : Fn} {isig : Sg} {stack : List String}
-    {st st' : VisitSt} {it : Item} (hn : it.noLoad) (h : visitItem m W rec fn isig stack st it = .ok st') :
-    st'.loads = st.loads := by
-  cases it with
-  | call f line =>
-    obtain ⟨g, ctx, named, fis, refs, _, rfl⟩ := plain_inv (by simpa [visitItem] using h); rfl
-  | callArgs f args kwargs rtA rtK line =>
-    obtain ⟨g, ctx, named, fis, refs, _, rfl⟩ := plain_inv (by simpa [visitItem] using h); rfl
-  | ref f line =>
-    rcases ref_inv h with ⟨_, rfl⟩ | ⟨_, g, ctx, named, fis, refs, _, rfl⟩ <;> rfl
-  | keep path f args kwargs rtA rtK line =>
-    obtain ⟨g, ctx, named, fis, refs, _, _, rfl⟩ := keep_inv h; rfl
-  | load path line => exact absurd hn (by simp [Item.noLoad])
-  | evalCall f line => exact absurd hn (by simp [Item.noLoad])
-
-theorem visitItems_loads {m : Nat} {W : World} {rec : Analyse} {fn : Fn} {isig : Sg} {stack : List String} :
-    ∀ {its : List Item} {st st' : VisitSt}, (∀ it ∈ its, it.noLoad) →
-      visitItems m W rec fn isig stack st its = .ok st' → st'.loads = st.loads
-  | [], st, st', _, h => by simp [visitItems] at h; subst h; rfl
-  | it :: its, st, st', hn, h => by
-    obtain ⟨t, h1, h2⟩ := visitItems_cons_inv h
-    rw [visitItems_loads (fun x hx => hn x (mem_cons_of_mem _ hx)) h2, visitItem_loads (hn it mem_cons_self) h1]
-
 /-- in a body whose items are in line order, the items up to the line of an item are that item and those before it -/
 theorem filter_le_split {items pre post : List Item} {it : Item} (hs : items.Pairwise (fun a b => a.line < b.line))
     (h : items = pre ++ it :: post) : items.filter (fun x => x.line ≤ it.line) = pre ++ [it] := by
@@ -267,11 +247,67 @@ theorem plainItems_results_eq {W1 W2 : World} {rec1 rec2 : PlainRec} {env : Env}
   rw [h1, h2] at h
   exact Except.ok.inj h
 
+theorem mem_loadsSigList {refs : Refs} {k : String} {s : Sg} : ∀ {ps : List String},
+    (k, s) ∈ loadsSigList refs ps ↔ ∃ p ∈ ps, k = "dep_" ++ p ∧ aget refs p = some s
+  | [] => by simp [loadsSigList]
+  | q :: qs => by
+    unfold loadsSigList
+    cases hq : aget refs q with
+    | none =>
+      simp only [mem_loadsSigList (ps := qs), mem_cons, exists_eq_or_imp]
+      constructor
+      · intro h; exact Or.inr h
+      · rintro (⟨_, h⟩ | h)
+        · rw [hq] at h; cases h
+        · exact h
+    | some s' =>
+      simp only [mem_cons, Prod.mk.injEq, mem_loadsSigList (ps := qs), exists_eq_or_imp]
+      constructor
+      · rintro (⟨h1, h2⟩ | h)
+        · exact Or.inl ⟨h1, by rw [hq, h2]⟩
+        · exact Or.inr h
+      · rintro (⟨h1, h2⟩ | h)
+        · rw [hq] at h2; exact Or.inl ⟨h1, (Option.some.inj h2).symm⟩
+        · exact Or.inr h
+
+theorem loadsSigList_cat (refs : Refs) (ps : List String) : inCat 2 (loadsSigList refs ps) := by
+  intro kv hkv
+  obtain ⟨k, s⟩ := kv
+  obtain ⟨p, _, hk, _⟩ := mem_loadsSigList.mp hkv
+  simp only [hk]; exact keyCat_dep p
+
+/-- the interaction hash of a call site determines the signatures of the calls made so far and of the paths loaded so far -/
+theorem inter_hash_split {sigs1 sigs2 : List Sg} {refs1 refs2 : Refs} {l1 l2 : List String}
+    (h : hashCommut (fisSigList sigs1 ++ loadsSigList refs1 l1) = hashCommut (fisSigList sigs2 ++ loadsSigList refs2 l2)) :
+    sigs1 = sigs2 ∧ loadsSigList refs1 l1 ~ loadsSigList refs2 l2 := by
+  have hp := hashCommut_inj h
+  have c3 : ∀ sigs, inCat 3 (fisSigList sigs) := fun sigs => fisSigListFrom_cat sigs 0
+  have f3 := hp.filter (fun kv => keyCat kv.1 == 3)
+  have f2 := hp.filter (fun kv => keyCat kv.1 == 2)
+  simp only [filter_append] at f3 f2
+  rw [filter_cat_self (c3 sigs1), filter_cat_self (c3 sigs2), filter_cat_nil (loadsSigList_cat refs1 l1) (by decide),
+    filter_cat_nil (loadsSigList_cat refs2 l2) (by decide), append_nil, append_nil] at f3
+  rw [filter_cat_nil (c3 sigs1) (by decide), filter_cat_nil (c3 sigs2) (by decide), filter_cat_self (loadsSigList_cat refs1 l1),
+    filter_cat_self (loadsSigList_cat refs2 l2), nil_append, nil_append] at f2
+  exact ⟨fisSigList_perm_eq _ _ f3, f2⟩
+
+theorem Chain.mono {U : Universe} {m : Nat} {Ω Ω' : Blobs} (h : ∀ s v, sgGet Ω s = some v → sgGet Ω' s = some v)
+    {W : World} {fn : Fn} {ctx : ArgCtx} {env : Env} (c : Chain U m Ω W fn ctx env) : Chain U m Ω' W fn ctx env := by
+  induction c with
+  | const fn inner vals hnames hvals => exact Chain.const W fn inner vals hnames hvals
+  | site caller cctx cenv fuel stack refs pre it post st results p f args kwargs rtA rtK g k named fis rf env' ev io
+      hch hW hUc hitems hev hio hvis hres hlo hlown hcallee hstep hnone hbind ih =>
+    refine Chain.site W caller cctx cenv fuel stack refs pre it post st results p f args kwargs rtA rtK g k named fis rf env' ev io
+      ih hW hUc hitems hev hio hvis hres (loadsOKL_mono h _ hlo) ?_ hcallee hstep hnone hbind
+    intro path hp
+    obtain ⟨s, v, h1, h2, h3⟩ := hlown path hp
+    exact ⟨s, v, h1, h _ _ h2, h3⟩
+
 /-- **`env_sound`.** Two chained calls with the same parameters whose signatures carry the same argument pairs
 are run with the same parameter values. -/
-theorem env_sound (U : Universe) (m : Nat) {W1 : World} {fn1 : Fn} {ctx1 : ArgCtx} {env1 : Env}
-    (h1 : Chain U m W1 fn1 ctx1 env1) :
-    ∀ {W2 : World} {fn2 : Fn} {ctx2 : ArgCtx} {env2 : Env}, Chain U m W2 fn2 ctx2 env2 →
+theorem env_sound (U : Universe) (m : Nat) {Ω : Blobs} {W1 : World} {fn1 : Fn} {ctx1 : ArgCtx} {env1 : Env}
+    (h1 : Chain U m Ω W1 fn1 ctx1 env1) :
+    ∀ {W2 : World} {fn2 : Fn} {ctx2 : ArgCtx} {env2 : Env}, Chain U m Ω W2 fn2 ctx2 env2 →
       W1.extVersion = W2.extVersion → U.fns fn1 → U.fns fn2 → fn1.params = fn2.params →
       ∀ pa1 pa2, argPairs ctx1 = .ok pa1 → argPairs ctx2 = .ok pa2 → pa1 ~ pa2 → env1 = env2 := by
   induction h1 with
@@ -293,13 +329,13 @@ theorem env_sound (U : Universe) (m : Nat) {W1 : World} {fn1 : Fn} {ctx1 : ArgCt
         rw [hnames]; exact U.paramNames fn hU1
       exact vals_env_eq U vals vals' (arg_perm_eq _ _ hn hnd hperm) hvals hvals'
     | site caller cctx cenv fuel stack refs pre it post st results p f args kwargs rtA rtK g k named fis rf env' ev io
-        hch hW hUc hitems hev hio hvis hres hcallee hstep hnone hbind =>
+        hch hW hUc hitems hev hio hvis hres hlo hlown hcallee hstep hnone hbind =>
       rw [argPairs_site hnone] at hp2
       simp only [Except.ok.injEq] at hp2
       subst hp2
       exact absurd hperm (fun hp => const_site_absurd U hU1 hnames hp)
   | site caller cctx cenv fuel stack refs pre it post st results p f args kwargs rtA rtK g k named fis rf env' ev io
-      hch hW hUc hitems hev hio hvis hres hcallee hstep hnone hbind ih =>
+      hch hW hUc hitems hev hio hvis hres hlo hlown hcallee hstep hnone hbind ih =>
     intro W2 fn2 ctx2 env2 h2 hext hU1 hU2 hpar pa1 pa2 hp1 hp2 hperm
     rw [argPairs_site hnone] at hp1
     simp only [Except.ok.injEq] at hp1
@@ -311,7 +347,7 @@ theorem env_sound (U : Universe) (m : Nat) {W1 : World} {fn1 : Fn} {ctx1 : ArgCt
       subst hp2
       exact absurd hperm.symm (fun hp => const_site_absurd U hU2 hnames' hp)
     | site caller' cctx' cenv' fuel' stack' refs' pre' it' post' st' results' p' f' args' kwargs' rtA' rtK' g' k' named' fis' rf' env'' ev' io'
-        hch' hW' hUc' hitems' hev' hio' hvis' hres' hcallee' hstep' hnone' hbind' =>
+        hch' hW' hUc' hitems' hev' hio' hvis' hres' hlo' hlown' hcallee' hstep' hnone' hbind' =>
       rw [argPairs_site hnone'] at hp2
       simp only [Except.ok.injEq] at hp2
       subst hp2
@@ -354,16 +390,30 @@ theorem env_sound (U : Universe) (m : Nat) {W1 : World} {fn1 : Fn} {ctx1 : ArgCt
       obtain ⟨cpa', hcpa'⟩ := buildReturnSig_argPairs hio'
       have hcenv : cenv = cenv' := ih hch' hext hUc hUc' hcpar cpa cpa' hcpa hcpa' (inputSig_argPairs hio hio' hcpa hcpa' e2)
       subst hcenv
-      -- the calls before this one have the same signatures, hence the same results
-      have hnl : ∀ x ∈ pre, x.noLoad := fun x hx => U.noLoads caller hUc x (by rw [hitems]; simp [hx])
-      have hl1 := visitItems_loads hnl hvis
-      have hl2 := visitItems_loads hnl hvis'
-      simp only at hl1 hl2
-      rw [hl1, hl2] at e3
-      simp only [dedupStr, loadsSigList, append_nil] at e3
-      have hsigs := fisSigList_perm_eq _ _ (hashCommut_inj e3)
-      have hls := lockstep U (sig_sound U m fuel) hW hW' hext caller caller' _ _ stack stack' cenv pre hnl
+      -- the calls before this one have the same signatures, the paths loaded so far resolve to the same signatures:
+      -- the two plain states agree on everything loaded before this call, hence the same results
+      obtain ⟨hsigs, hdeps⟩ := inter_hash_split e3
+      have hne : ∀ x ∈ pre, ¬ x.isEval := fun x hx => U.noEval caller hUc x (by rw [hitems]; simp [hx])
+      have hshape := lockstep_shape U (sig_shape U m fuel) hW hW' caller caller' _ _ stack stack' pre hne
+        _ st _ st' hvis hvis' rfl rfl hsigs trivial
+      have hag : KAgree (st.loads ++ FIS.allLoadsL st.inters) p p' := by
+        intro path hp
+        rcases mem_append.mp hp with hp | hp
+        · obtain ⟨s, v, r1, r2, r3⟩ := hlown path hp
+          have hm : ("dep_" ++ path, s) ∈ loadsSigList st.refs (dedupStr st.loads) :=
+            mem_loadsSigList.mpr ⟨path, (mem_dedupStr path _).mpr hp, rfl, r1⟩
+          obtain ⟨path', hp', hk', hr'⟩ := mem_loadsSigList.mp (hdeps.subset hm)
+          have : path' = path := ((String.append_right_inj _).mp hk').symm
+          subst this
+          obtain ⟨s', v', r1', r2', r3'⟩ := hlown' path' ((mem_dedupStr path' _).mp hp')
+          rw [hr'] at r1'
+          cases r1'
+          rw [r3, r3', ← r2, ← r2']
+        · exact loadsOKL_agree _ _ hshape hlo hlo' path hp
+      have hls := (lockstep U (sig_sound U m fuel) hW hW' hext caller caller' _ _ stack stack' cenv
+        (st.loads ++ FIS.allLoadsL st.inters) pre hne
         _ st _ st' [] p p' hvis hvis' rfl rfl (fun f hf => absurd hf (by simp)) hsigs
+        (fun x hx => mem_append_left _ hx) (fun x hx => mem_append_right _ hx) hag).1
       have hresults := plainItems_results_eq hls hres hres'
       subst hresults
       rw [hpar] at hbind
@@ -391,20 +441,24 @@ theorem sig_argPairs {m : Nat} {W1 W2 : World} {fuel1 fuel2 : Nat} {refs1 refs2 
         (buildReturnSig_inj _ _ _ _ _ _ _ _ _ _ _ _ pa1 pa2 hpa1 hpa2 (a1.hret.trans a2.hret.symm)).2.1⟩
 
 /-- **`sig_sound`.** Two calls made inside evaluations — of any two versions of the code from the universe, at any
-depth, with literal, default or run-time arguments — to which the analysis gives the same return signature
-return the same value (or raise the same exception) under plain execution. -/
-theorem sig_sound_full (U : Universe) (m : Nat) {W1 W2 : World} {fn1 fn2 : Fn} {ctx1 ctx2 : ArgCtx} {env1 env2 : Env}
-    (c1 : Chain U m W1 fn1 ctx1 env1) (c2 : Chain U m W2 fn2 ctx2 env2)
+depth, with literal, default or run-time arguments, loading paths or not — to which the analysis gives the same return
+signature return the same value (or raise the same exception) under plain execution, when run from plain states that hold,
+at every path the calls load, the blob of the signature the path resolved to (with respect to one blob map). -/
+theorem sig_sound_full (U : Universe) (m : Nat) {Ω : Blobs} {W1 W2 : World} {fn1 fn2 : Fn} {ctx1 ctx2 : ArgCtx} {env1 env2 : Env}
+    (c1 : Chain U m Ω W1 fn1 ctx1 env1) (c2 : Chain U m Ω W2 fn2 ctx2 env2)
     (hW1 : U.world W1) (hW2 : U.world W2) (hext : W1.extVersion = W2.extVersion) (hU1 : U.fns fn1) (hU2 : U.fns fn2)
     {fuel1 fuel2 : Nat} {refs1 refs2 : Refs} {stack1 stack2 : List String} {fis1 fis2 : FIS} {r1 r2 : Refs}
     (h1 : analyse m W1 fuel1 refs1 stack1 fn1 ctx1 = .ok (fis1, r1))
     (h2 : analyse m W2 fuel2 refs2 stack2 fn2 ctx2 = .ok (fis2, r2))
-    (hs : fis1.retSig = fis2.retSig) (p1 p2 : PSt) :
+    (hs : fis1.retSig = fis2.retSig) (p1 p2 : PSt)
+    (hl1 : FIS.loadsOK Ω p1.kept fis1) (hl2 : FIS.loadsOK Ω p2.kept fis2) :
     (plainFn W1 fuel1 p1 fn1 env1).1 = (plainFn W2 fuel2 p2 fn2 env2).1 := by
   have hpar : fn1.params = fn2.params := congrArg Code.params (sig_params U h1 h2 hU1 hU2 hs).1
   obtain ⟨pa1, pa2, hp1, hp2, hperm⟩ := sig_argPairs h1 h2 hs
   have henv := env_sound U m c1 c2 hext hU1 hU2 hpar pa1 pa2 hp1 hp2 hperm
   subst henv
-  exact sig_sound U m fuel1 fuel2 W1 W2 _ _ _ _ fn1 fn2 _ _ env1 fis1 fis2 _ _ p1 p2 hW1 hW2 hext hU1 hU2 h1 h2 hs
+  have hsh := sig_shape U m fuel1 fuel2 W1 W2 _ _ _ _ fn1 fn2 _ _ fis1 fis2 _ _ hW1 hW2 hU1 hU2 h1 h2 hs
+  exact (sig_sound U m fuel1 fuel2 W1 W2 _ _ _ _ fn1 fn2 _ _ env1 fis1 fis2 _ _ p1 p2 hW1 hW2 hext hU1 hU2 h1 h2 hs
+    (loadsOK_agree fis1 fis2 hsh hl1 hl2)).1
 
 end Dds
